@@ -1,2 +1,839 @@
-(* C02: boundedness of the feasible set of Model/LP.v (in progress) *)
-From Coq Require Import QArith.
+(* C02, certificate layer: the boundedness hypothesis of `check_cert_optimal` discharged.
+   For every input `i`, every optimisation type and every feasible assignment of the programme
+   `build i ty` (Model/LP.v), every variable that OCCURS in the programme is below the explicit,
+   computable number `ubound i ty` (Model/LPBound.v).  Hence a certificate accepted by
+   `check_cert (build i ty) y (ubound i ty) claimed` proves `claimed` optimal with no side
+   condition on the assignment (`certificate_optimal`), also at the level of the specification
+   Model/Physical.v (`certificate_optimal_physical`).
+   Hypotheses: `admissible i` (as everywhere), `bound_hyps i ty` (people-fed rounds need at least
+   one month: with no month there is no row and Obj is unbounded) and `store_ok i` (stock carried
+   over the years, or no stored food: in the first-year-only regime SF_end m / SF_start (m+1),
+   m > 12, are genuinely unbounded - `first_year_regime_unbounded`). *)
+From Coq Require Import QArith List Bool Arith Lia Lqa.
+From Allfed Require Import Model.LP Model.LPCert Model.LPBound.
+From Allfed Require Import Proofs.LPChar Proofs.LPCert Proofs.LP_C01.
+From Allfed Require Model.Physical Proofs.LP_C02.
+Import ListNotations.
+Open Scope Q_scope.
+
+(* ================================================================== *)
+(* which variables occur in `build i ty`                              *)
+(* ================================================================== *)
+
+Definition live (i : lp_in) (ty : opt_type) (v : var) : Prop :=
+  match fst v with
+  | SF_start | SF_end | SF_h | SF_f | SF_b => add_sf i = true /\ (snd v < NM i)%nat
+  | SCP_h | SCP_f | SCP_b => add_scp i = true /\ (snd v < NM i)%nat
+  | CS_h | CS_f | CS_b => add_cs i = true /\ (snd v < NM i)%nat
+  | M_start | M_end => (add_meat i = true /\ store_years i = true) /\ (snd v < NM i)%nat
+  | M_eaten => add_meat i = true /\ (snd v < NM i)%nat
+  | CR_storage | CR_consumed | CR_h | CR_f | CR_b => add_cr i = true /\ (snd v < NM i)%nat
+  | SW_wet | SW_h | SW_f | SW_b | SW_area => add_sw i = true /\ (snd v < NM i)%nat
+  | Consumed => ty = ToHumans /\ (snd v < NM i)%nat
+  | Obj => snd v = O
+  end.
+
+Definition terms_live (i : lp_in) (ty : opt_type) (l : list (Q * var)) : Prop :=
+  Forall (fun cv => live i ty (snd cv)) l.
+Definition row_live (i : lp_in) (ty : opt_type) (r : row) : Prop := terms_live i ty (lhs r).
+
+Ltac live_solve :=
+  unfold row_live, terms_live; cbv zeta; unfold t; cbn [lhs mk];
+  repeat (apply Forall_cons || apply Forall_nil);
+  unfold live; cbn [fst snd]; repeat split; (assumption || lia || reflexivity).
+
+Ltac rows_live := repeat (apply Forall_cons || apply Forall_nil || apply Forall_app; try split); try live_solve.
+
+Section Live.
+  Variables (i : lp_in) (ty : opt_type).
+
+  Lemma terms_live_opt b l : (b = true -> terms_live i ty l) -> terms_live i ty (opt b l).
+  Proof. destruct b; cbn [opt]; intros H; [apply H; reflexivity | constructor]. Qed.
+
+  Lemma terms_live_app l1 l2 : terms_live i ty l1 -> terms_live i ty l2 -> terms_live i ty (l1 ++ l2).
+  Proof. intros H1 H2. apply Forall_app. split; assumption. Qed.
+
+  Lemma live_seaweed m : add_sw i = true -> (m < NM i)%nat -> Forall (row_live i ty) (rows_seaweed i m).
+  Proof. intros Hb Hm. unfold rows_seaweed. destruct m as [|p]; rows_live. Qed.
+
+  Lemma live_pin c s pin m : live i ty (s, m) -> Forall (row_live i ty) (rows_pin i ty c s pin m).
+  Proof.
+    intros H. unfold rows_pin. destruct ty; [constructor|]. destruct (pin_bounds i) as [lo hi].
+    repeat (apply Forall_cons || apply Forall_nil); unfold row_live, terms_live; cbn [lhs mk t];
+      repeat (apply Forall_cons || apply Forall_nil); exact H.
+  Qed.
+
+  Lemma live_crops m : add_cr i = true -> (m < NM i)%nat -> Forall (row_live i ty) (rows_crops i ty m).
+  Proof.
+    intros Hb Hm. unfold rows_crops. destruct m as [|p]; [rows_live|].
+    destruct (Nat.eqb (S p) (NM i - 1)); destruct ty; rows_live.
+  Qed.
+
+  Lemma live_sf_eaten m : add_sf i = true -> (m < NM i)%nat -> row_live i ty (sf_eaten_row i m).
+  Proof. intros Hb Hm. unfold sf_eaten_row. live_solve. Qed.
+
+  Lemma live_sf m : add_sf i = true -> (m < NM i)%nat -> Forall (row_live i ty) (rows_sf i ty m).
+  Proof.
+    intros Hb Hm. pose proof (live_sf_eaten m Hb Hm) as He. unfold rows_sf.
+    destruct (store_years i); destruct m as [|p];
+      try destruct (Nat.eqb (S p) (NM i - 1)); try destruct (Nat.ltb 12 (S p)); destruct ty;
+      rows_live; try exact He.
+  Qed.
+
+  Lemma live_meat m : add_meat i = true -> (m < NM i)%nat -> Forall (row_live i ty) (rows_meat i m).
+  Proof.
+    intros Hb Hm. unfold rows_meat. destruct (store_years i) eqn:R; destruct m as [|p]; rows_live.
+  Qed.
+
+  Lemma live_scp m : add_scp i = true -> (m < NM i)%nat -> Forall (row_live i ty) (rows_scp i m).
+  Proof. intros Hb Hm. unfold rows_scp. rows_live. Qed.
+
+  Lemma live_cs m : add_cs i = true -> (m < NM i)%nat -> Forall (row_live i ty) (rows_cs i m).
+  Proof. intros Hb Hm. unfold rows_cs. rows_live. Qed.
+
+  Lemma live_feed_terms c m : (m < NM i)%nat -> terms_live i ty (feed_terms i c m).
+  Proof.
+    intros Hm. unfold feed_terms.
+    repeat apply terms_live_app; apply terms_live_opt; intros Hb; live_solve.
+  Qed.
+
+  Lemma live_biofuel_terms c m : (m < NM i)%nat -> terms_live i ty (biofuel_terms i c m).
+  Proof.
+    intros Hm. unfold biofuel_terms.
+    repeat apply terms_live_app; apply terms_live_opt; intros Hb; live_solve.
+  Qed.
+
+  Lemma live_human_terms c m : (m < NM i)%nat -> terms_live i ty (human_terms i c m).
+  Proof.
+    intros Hm. unfold human_terms.
+    repeat apply terms_live_app; apply terms_live_opt; intros Hb; live_solve.
+  Qed.
+
+  Lemma live_feed_biofuel m : (m < NM i)%nat -> Forall (row_live i ty) (rows_feed_biofuel i ty m).
+  Proof.
+    intros Hm. unfold rows_feed_biofuel. destruct (has_nonhuman i); [|constructor].
+    destruct ty eqn:T; [|destruct m as [|p]]; cbn [app];
+      repeat (apply Forall_cons || apply Forall_nil); unfold row_live; cbn [lhs mk]; rewrite <- T;
+      repeat first [ apply live_feed_terms; lia | apply live_biofuel_terms; lia | apply terms_live_app ].
+  Qed.
+
+  Lemma live_consumed m : (m < NM i)%nat -> Forall (row_live i ty) (rows_consumed i ty m).
+  Proof.
+    intros Hm. unfold rows_consumed. destruct ty eqn:T; [|constructor].
+    apply Forall_cons; [|constructor]. unfold row_live; cbn [lhs mk]. apply Forall_cons.
+    - unfold live; cbn [t fst snd]. split; [reflexivity | exact Hm].
+    - rewrite <- T. apply live_human_terms. exact Hm.
+  Qed.
+
+  Lemma live_caps_food m r sh sf sb ch cf cb :
+    live i ty (sh, m) -> live i ty (sf, m) -> live i ty (sb, m) -> (m < NM i)%nat ->
+    Forall (row_live i ty) (rows_caps_food i ty m r sh sf sb ch cf cb).
+  Proof.
+    intros Hh Hf Hb Hm. unfold rows_caps_food. destruct ty eqn:T; cbn [app];
+      repeat (apply Forall_cons || apply Forall_nil); unfold row_live, terms_live; cbn [lhs mk t];
+      repeat (apply Forall_cons || apply Forall_nil); cbn [snd]; try assumption.
+    unfold live; cbn [fst snd]. split; [reflexivity | exact Hm].
+  Qed.
+
+  Lemma live_caps m : (m < NM i)%nat -> Forall (row_live i ty) (rows_caps i ty m).
+  Proof.
+    intros Hm. unfold rows_caps. rewrite !Forall_app. repeat split.
+    - destruct (add_sw i) eqn:Hb; [|constructor]. apply live_caps_food; try exact Hm; unfold live; cbn [fst snd]; auto.
+    - destruct (add_scp i) eqn:Hb; [|constructor]. apply live_caps_food; try exact Hm; unfold live; cbn [fst snd]; auto.
+    - destruct (add_cs i) eqn:Hb; [|constructor]. apply live_caps_food; try exact Hm; unfold live; cbn [fst snd]; auto.
+  Qed.
+
+  Lemma live_objective : Forall (row_live i ty) (rows_objective i ty).
+  Proof.
+    unfold rows_objective, months. destruct ty eqn:T.
+    - apply Forall_map_seq0. intros m Hm. live_solve.
+    - apply Forall_cons; [|constructor]. unfold row_live; cbn [lhs mk]. apply Forall_cons.
+      + unfold live; cbn [t fst snd]. reflexivity.
+      + apply Forall_flat_map_seq0. intros m Hm. rewrite <- T.
+        apply terms_live_app; [apply live_feed_terms | apply live_biofuel_terms]; exact Hm.
+  Qed.
+
+  Lemma live_block (b : bool) (f g : nat -> list row) :
+    (b = true -> forall m, (m < NM i)%nat -> Forall (row_live i ty) (f m) /\ Forall (row_live i ty) (g m)) ->
+    Forall (row_live i ty) (if b then flat_map (fun m => f m ++ g m) (months i) else []).
+  Proof. intros H. unfold months. apply Forall_resource_block. exact H. Qed.
+
+  Theorem build_live : Forall (row_live i ty) (build i ty).
+  Proof.
+    unfold build, resource_rows. rewrite !Forall_app. repeat split.
+    - apply live_block. intros Hb m Hm. split; [apply live_seaweed | apply live_pin; unfold live; cbn [fst snd]]; auto.
+    - apply live_block. intros Hb m Hm. split; [apply live_crops | apply live_pin; unfold live; cbn [fst snd]]; auto.
+    - apply live_block. intros Hb m Hm. split; [apply live_sf | apply live_pin; unfold live; cbn [fst snd]]; auto.
+    - apply live_block. intros Hb m Hm. split; [apply live_meat | apply live_pin; unfold live; cbn [fst snd]]; auto.
+    - apply live_block. intros Hb m Hm. split; [apply live_scp | apply live_pin; unfold live; cbn [fst snd]]; auto.
+    - apply live_block. intros Hb m Hm. split; [apply live_cs | apply live_pin; unfold live; cbn [fst snd]]; auto.
+    - unfold months. apply Forall_flat_map_seq0. intros m Hm. rewrite !Forall_app.
+      repeat split; [apply live_feed_biofuel | apply live_consumed | apply live_caps]; exact Hm.
+    - apply live_objective.
+  Qed.
+
+  (* every variable that occurs is the objective variable or belongs to an added food and a month
+     of the horizon (M_start/M_end: storage regime only; Consumed: people-fed rounds only) *)
+  Theorem occurs_inv s m : occurs (s, m) (build i ty) = true -> live i ty (s, m).
+  Proof.
+    unfold occurs. rewrite orb_true_iff. intros [H|H].
+    - apply var_eqb_eq in H. injection H as -> ->. unfold live; cbn [fst snd]. reflexivity.
+    - apply existsb_exists in H. destruct H as (r & Hr & H).
+      apply existsb_exists in H. destruct H as ([c v] & Hv & H).
+      apply var_eqb_eq in H. cbn [snd] in H. subst v.
+      pose proof build_live as HL. rewrite Forall_forall in HL. specialize (HL r Hr).
+      unfold row_live, terms_live in HL. rewrite Forall_forall in HL. exact (HL _ Hv).
+  Qed.
+End Live.
+
+(* ================================================================== *)
+(* arithmetic helpers                                                 *)
+(* ================================================================== *)
+
+Lemma rsum_sumQ f n : rsum f n == sumQ f n.
+Proof. induction n as [|n IH]; cbn [rsum sumQ]; [reflexivity | rewrite Qred_correct, IH; reflexivity]. Qed.
+
+Lemma rsum_nonneg f n : (forall m, 0 <= f m) -> 0 <= rsum f n.
+Proof. intros H. rewrite rsum_sumQ. apply sumQ_nonneg. intros; apply H. Qed.
+
+Lemma term_le_csum f m : (forall k, 0 <= f k) -> f m <= csum f m.
+Proof.
+  intros H. unfold csum. cbn [sumQ].
+  assert (0 <= sumQ f m) by (apply sumQ_nonneg; intros; apply H). lra.
+Qed.
+
+Lemma csum_le_rsum f m n : (forall k, 0 <= f k) -> (m < n)%nat -> csum f m <= rsum f n.
+Proof.
+  intros H Hm. rewrite rsum_sumQ. unfold csum. apply sumQ_mono_n; [intros; apply H | lia].
+Qed.
+
+Lemma term_le_rsum f m n : (forall k, 0 <= f k) -> (m < n)%nat -> f m <= rsum f n.
+Proof. intros H Hm. pose proof (term_le_csum f m H). pose proof (csum_le_rsum f m n H Hm). lra. Qed.
+
+Lemma pos_sum_nonneg l n : 0 <= pos_sum l n.
+Proof. unfold pos_sum. apply rsum_nonneg. intros; apply pos_part_nonneg. Qed.
+
+Lemma at_le_pos_sum l m n : (m < n)%nat -> at_ l m <= pos_sum l n.
+Proof.
+  intros Hm. unfold pos_sum.
+  pose proof (term_le_rsum (fun m => pos_part (at_ l m)) m n (fun k => pos_part_nonneg _) Hm) as H.
+  cbv beta in H. pose proof (pos_part_ge (at_ l m)). lra.
+Qed.
+
+Lemma csum_at_le_pos_sum l m n : (m < n)%nat -> csum (at_ l) m <= pos_sum l n.
+Proof.
+  intros Hm. unfold pos_sum.
+  pose proof (csum_le_rsum (fun m => pos_part (at_ l m)) m n (fun k => pos_part_nonneg _) Hm) as H.
+  assert (csum (at_ l) m <= csum (fun m => pos_part (at_ l m)) m)
+    by (apply csum_le; intros; apply pos_part_ge). lra.
+Qed.
+
+Lemma mul_bound x X c : 0 <= x -> x <= X -> x * c <= X * pos_part c.
+Proof.
+  intros H0 H1. pose proof (pos_part_ge c). pose proof (pos_part_nonneg c).
+  assert (x * c <= x * pos_part c).
+  { rewrite (Qmult_comm x c), (Qmult_comm x (pos_part c)). apply Qmult_le_compat_r; assumption. }
+  assert (x * pos_part c <= X * pos_part c) by (apply Qmult_le_compat_r; assumption). lra.
+Qed.
+
+Lemma gross_drop w x : waste_ok w -> 0 <= x -> x <= gross w * x.
+Proof.
+  intros Hw Hx. pose proof (gross_ge_1 w Hw).
+  assert (0 <= (gross w - 1) * x) by (apply Qmult_le_0_compat; lra). lra.
+Qed.
+
+(* a three-way use: each share is below the (grossed-up) total *)
+Lemma use_parts w h f b U : waste_ok w -> 0 <= h -> 0 <= f -> 0 <= b -> gross w * h + f + b <= U ->
+  h <= U /\ f <= U /\ b <= U.
+Proof.
+  intros Hw Hh Hf Hb H. pose proof (gross_drop w h Hw Hh). repeat split; lra.
+Qed.
+
+Lemma onb_nonneg b x : 0 <= x -> 0 <= onb b x.
+Proof. destruct b; cbn [onb]; lra. Qed.
+
+Lemma bq_le_onb b x X : (b = true -> x <= X) -> bq b x <= onb b X.
+Proof. destruct b; cbn [bq onb]; intros H; [apply H; reflexivity | lra]. Qed.
+
+(* ================================================================== *)
+(* the pieces are non-negative                                        *)
+(* ================================================================== *)
+
+Lemma B_sf_nonneg i : 0 <= B_sf i.
+Proof. apply onb_nonneg, pos_part_nonneg. Qed.
+Lemma B_cr_nonneg i : 0 <= B_cr i.
+Proof. apply onb_nonneg, pos_sum_nonneg. Qed.
+Lemma B_meat_nonneg i : 0 <= B_meat i.
+Proof. apply onb_nonneg. destruct (store_years i); [apply pos_part_nonneg | apply pos_sum_nonneg]. Qed.
+Lemma B_scp_nonneg i : 0 <= B_scp i.
+Proof. apply onb_nonneg, pos_sum_nonneg. Qed.
+Lemma B_cs_nonneg i : 0 <= B_cs i.
+Proof. apply onb_nonneg, pos_sum_nonneg. Qed.
+Lemma sw_W_nonneg i m : 0 <= sw_W i m.
+Proof. apply pos_part_nonneg. Qed.
+Lemma sw_B_nonneg i m : 0 <= sw_B i m.
+Proof. apply pos_part_nonneg. Qed.
+Lemma sw_U_nonneg i m : 0 <= sw_U i m.
+Proof.
+  destruct m as [|p]; cbn [sw_U]; [lra|].
+  pose proof (Qmult_le_0_compat _ _ (sw_W_nonneg i p) (pos_part_nonneg (1 + at_ (growth i) (S p) / 100))).
+  pose proof (Qmult_le_0_compat _ _ (sw_B_nonneg i p) (pos_part_nonneg (sw_c i))).
+  pose proof (Qmult_le_0_compat _ _ (sw_B_nonneg i (S p)) (pos_part_nonneg (- sw_c i))). lra.
+Qed.
+Lemma B_sw_stock_nonneg i : 0 <= B_sw_stock i.
+Proof.
+  apply onb_nonneg. pose proof (rsum_nonneg (sw_W i) (NM i) (sw_W_nonneg i)).
+  pose proof (rsum_nonneg (sw_B i) (NM i) (sw_B_nonneg i)). lra.
+Qed.
+Lemma B_sw_use_nonneg i : 0 <= B_sw_use i.
+Proof. apply onb_nonneg, rsum_nonneg, sw_U_nonneg. Qed.
+
+Lemma B_human_nonneg i : 0 < sw_kcals i -> 0 <= B_human i.
+Proof.
+  intros Hk. unfold B_human.
+  pose proof (B_sf_nonneg i). pose proof (B_cr_nonneg i). pose proof (B_meat_nonneg i).
+  pose proof (B_cs_nonneg i). pose proof (B_scp_nonneg i).
+  assert (0 <= sw_kcals i * B_sw_use i) by (apply Qmult_le_0_compat; [lra | apply B_sw_use_nonneg]). lra.
+Qed.
+
+Lemma need_factor_nonneg i : 0 < need i -> 0 <= 100 / need i.
+Proof. intros Hn. apply Qle_shift_div_l; [exact Hn | lra]. Qed.
+
+Lemma B_cons_nonneg i : 0 < sw_kcals i -> 0 < need i -> 0 <= B_cons i.
+Proof.
+  intros Hk Hn. unfold B_cons. apply Qmult_le_0_compat; [|apply need_factor_nonneg; exact Hn].
+  pose proof (B_human_nonneg i Hk).
+  pose proof (rsum_nonneg (fun m => pos_part (given_kcals i m)) (NM i) (fun m => pos_part_nonneg _)). lra.
+Qed.
+
+Lemma B_obj_animals_nonneg i : 0 <= B_obj_animals i.
+Proof. unfold B_obj_animals. pose proof (pos_sum_nonneg (max_feed i) (NM i)). pose proof (pos_sum_nonneg (max_biofuel i) (NM i)). lra. Qed.
+
+Definition B_last (i : lp_in) (ty : opt_type) : Q :=
+  match ty with ToHumans => B_cons i | ToAnimals => B_obj_animals i end.
+
+Lemma ubound_eq i ty :
+  ubound i ty == B_sf i + B_cr i + B_meat i + B_scp i + B_cs i + B_sw_stock i + B_sw_use i + B_last i ty.
+Proof. unfold ubound. rewrite Qred_correct. reflexivity. Qed.
+
+Definition store_ok (i : lp_in) : Prop := store_years i = true \/ add_sf i = false.
+Definition bound_hyps (i : lp_in) (ty : opt_type) : Prop := ty = ToHumans -> (0 < NM i)%nat.
+
+(* ================================================================== *)
+(* per-food bounds                                                    *)
+(* ================================================================== *)
+Section Bounds.
+  Variables (i : lp_in) (ty : opt_type) (a : assignment).
+  Hypothesis A : admissible i.
+  Hypothesis F : Feasible i ty a.
+
+  Let Hn : forall s m, 0 <= a s m := lpc01_nonneg i ty a F.
+
+  Lemma A_sf : waste_ok (w_sf i). Proof. destruct A as (H & _); exact H. Qed.
+  Lemma A_cr : waste_ok (w_cr i). Proof. destruct A as (_ & H & _); exact H. Qed.
+  Lemma A_meat : waste_ok (w_meat i). Proof. destruct A as (_ & _ & H & _); exact H. Qed.
+  Lemma A_scp : waste_ok (w_scp i). Proof. destruct A as (_ & _ & _ & H & _); exact H. Qed.
+  Lemma A_cs : waste_ok (w_cs i). Proof. destruct A as (_ & _ & _ & _ & H & _); exact H. Qed.
+  Lemma A_sw : waste_ok (w_sw i). Proof. destruct A as (_ & _ & _ & _ & _ & H & _); exact H. Qed.
+  Lemma A_need : 0 < need i. Proof. destruct A as (_ & _ & _ & _ & _ & _ & H & _); exact H. Qed.
+  Lemma A_kcals : 0 < sw_kcals i. Proof. destruct A as (_ & _ & _ & _ & _ & _ & _ & H); exact H. Qed.
+
+  Lemma use_nonneg_all k :
+    0 <= sf_use i a k /\ 0 <= cr_use i a k /\ 0 <= meat_use i a k /\
+    0 <= scp_use i a k /\ 0 <= cs_use i a k /\ 0 <= sw_use i a k.
+  Proof. exact (lpc01_use_nonneg i ty a F A k). Qed.
+
+  (* ---------------- stored food ---------------- *)
+
+  Lemma bnd_sf_use : add_sf i = true -> forall m, (m < NM i)%nat ->
+    a SF_h m <= pos_part (sf0 i) /\ a SF_f m <= pos_part (sf0 i) /\ a SF_b m <= pos_part (sf0 i).
+  Proof.
+    intros Hb m Hm. apply (use_parts (w_sf i)); try apply Hn; [apply A_sf|].
+    pose proof (lpc01_stored i ty a F Hb m Hm) as H.
+    pose proof (term_le_csum (sf_use i a) m (fun k => proj1 (use_nonneg_all k))) as H1.
+    unfold sf_use at 1 in H1. pose proof (pos_part_ge (sf0 i)). lra.
+  Qed.
+
+  Lemma bnd_sf_end : add_sf i = true -> store_years i = true -> forall m, (m < NM i)%nat ->
+    a SF_end m <= pos_part (sf0 i).
+  Proof.
+    intros Hb R m Hm. pose proof (sf_ledger_store i ty a F Hb R m Hm) as H.
+    assert (0 <= csum (sf_use i a) m) by (apply csum_nonneg; intros k _; exact (proj1 (use_nonneg_all k))).
+    pose proof (pos_part_ge (sf0 i)). lra.
+  Qed.
+
+  Lemma bnd_sf_start : add_sf i = true -> store_years i = true -> forall m, (m < NM i)%nat ->
+    a SF_start m <= pos_part (sf0 i).
+  Proof.
+    intros Hb R m Hm. pose proof (Feasible_sf i ty a F m Hb Hm) as H. destruct m as [|p].
+    - apply (sat_rows_sf_store_O i ty a R) in H. destruct H as [H _]. pose proof (pos_part_ge (sf0 i)). lra.
+    - apply (sat_rows_sf_store_S i ty a p R) in H. destruct H as [H _].
+      pose proof (bnd_sf_end Hb R p ltac:(lia)). lra.
+  Qed.
+
+  (* ---------------- outdoor crops ---------------- *)
+
+  Lemma bnd_cr_consumed : add_cr i = true -> forall m, (m < NM i)%nat ->
+    a CR_consumed m <= pos_sum (crops_prod i) (NM i).
+  Proof.
+    intros Hb m Hm. pose proof (lpc01_crops i ty a F Hb m Hm) as H.
+    pose proof (term_le_csum (a CR_consumed) m (Hn CR_consumed)).
+    pose proof (csum_at_le_pos_sum (crops_prod i) m (NM i) Hm). lra.
+  Qed.
+
+  Lemma bnd_cr_storage : add_cr i = true -> forall m, (m < NM i)%nat ->
+    a CR_storage m <= pos_sum (crops_prod i) (NM i).
+  Proof.
+    intros Hb m Hm. pose proof (crops_ledger i ty a F Hb m Hm) as H.
+    assert (0 <= csum (a CR_consumed) m) by (apply csum_nonneg; intros; apply Hn).
+    pose proof (csum_at_le_pos_sum (crops_prod i) m (NM i) Hm). lra.
+  Qed.
+
+  Lemma bnd_cr_use : add_cr i = true -> forall m, (m < NM i)%nat ->
+    a CR_h m <= pos_sum (crops_prod i) (NM i) /\ a CR_f m <= pos_sum (crops_prod i) (NM i) /\
+    a CR_b m <= pos_sum (crops_prod i) (NM i).
+  Proof.
+    intros Hb m Hm. apply (use_parts (w_cr i)); try apply Hn; [apply A_cr|].
+    pose proof (lpc01_crops_consumed i ty a F Hb m Hm) as H. unfold cr_use in H.
+    pose proof (bnd_cr_consumed Hb m Hm). lra.
+  Qed.
+
+  (* ---------------- meat ---------------- *)
+
+  Lemma bnd_meat_eaten : add_meat i = true -> forall m, (m < NM i)%nat ->
+    a M_eaten m <= (if store_years i then pos_part (meat_total i) else pos_sum (meat_monthly i) (NM i)).
+  Proof.
+    intros Hb m Hm. pose proof (gross_drop (w_meat i) (a M_eaten m) A_meat (Hn _ _)) as Hg.
+    destruct (store_years i) eqn:R.
+    - destruct (lpc01_meat_store i ty a F Hb R m Hm) as [_ H].
+      pose proof (term_le_csum (meat_use i a) m (fun k => proj1 (proj2 (proj2 (use_nonneg_all k))))) as H1.
+      unfold meat_use at 1 in H1. pose proof (pos_part_ge (meat_total i)). lra.
+    - pose proof (lpc01_meat_nostore i ty a F Hb R m Hm) as H. unfold meat_use in H.
+      pose proof (at_le_pos_sum (meat_monthly i) m (NM i) Hm). lra.
+  Qed.
+
+  Lemma bnd_meat_end : add_meat i = true -> store_years i = true -> forall m, (m < NM i)%nat ->
+    a M_end m <= pos_part (meat_total i).
+  Proof.
+    intros Hb R m Hm. pose proof (meat_ledger i ty a F Hb R m Hm) as H.
+    assert (0 <= csum (meat_use i a) m)
+      by (apply csum_nonneg; intros k _; exact (proj1 (proj2 (proj2 (use_nonneg_all k))))).
+    pose proof (pos_part_ge (meat_total i)). lra.
+  Qed.
+
+  Lemma bnd_meat_start : add_meat i = true -> store_years i = true -> forall m, (m < NM i)%nat ->
+    a M_start m <= pos_part (meat_total i).
+  Proof.
+    intros Hb R m Hm. pose proof (Feasible_meat i ty a F m Hb Hm) as H. destruct m as [|p].
+    - apply (sat_rows_meat_store_O i a R) in H. destruct H as [H _]. pose proof (pos_part_ge (meat_total i)). lra.
+    - apply (sat_rows_meat_store_S i a p R) in H. destruct H as [H _].
+      pose proof (bnd_meat_end Hb R p ltac:(lia)). lra.
+  Qed.
+
+  (* ---------------- single-cell protein, cellulosic sugar ---------------- *)
+
+  Lemma bnd_scp : add_scp i = true -> forall m, (m < NM i)%nat ->
+    a SCP_h m <= pos_sum (scp_prod i) (NM i) /\ a SCP_f m <= pos_sum (scp_prod i) (NM i) /\
+    a SCP_b m <= pos_sum (scp_prod i) (NM i).
+  Proof.
+    intros Hb m Hm. apply (use_parts (w_scp i)); try apply Hn; [apply A_scp|].
+    pose proof (lpc01_scp i ty a F Hb m Hm) as H. unfold scp_use in H.
+    pose proof (at_le_pos_sum (scp_prod i) m (NM i) Hm). lra.
+  Qed.
+
+  Lemma bnd_cs : add_cs i = true -> forall m, (m < NM i)%nat ->
+    a CS_h m <= pos_sum (cs_prod i) (NM i) /\ a CS_f m <= pos_sum (cs_prod i) (NM i) /\
+    a CS_b m <= pos_sum (cs_prod i) (NM i).
+  Proof.
+    intros Hb m Hm. apply (use_parts (w_cs i)); try apply Hn; [apply A_cs|].
+    pose proof (lpc01_cs i ty a F Hb m Hm) as H. unfold cs_use in H.
+    pose proof (at_le_pos_sum (cs_prod i) m (NM i) Hm). lra.
+  Qed.
+
+  (* ---------------- seaweed ---------------- *)
+
+  Lemma bnd_sw_wet_m : add_sw i = true -> forall m, (m < NM i)%nat -> a SW_wet m <= sw_W i m.
+  Proof.
+    intros Hb m Hm. destruct (lpc01_seaweed_bounds i ty a F Hb m Hm) as (_ & H & _).
+    unfold sw_W. pose proof (pos_part_ge (sw_max_density i * at_ (built_area i) m)). lra.
+  Qed.
+
+  Lemma bnd_sw_area_m : add_sw i = true -> forall m, (m < NM i)%nat -> a SW_area m <= sw_B i m.
+  Proof.
+    intros Hb m Hm. destruct (lpc01_seaweed_bounds i ty a F Hb m Hm) as (_ & _ & _ & H).
+    unfold sw_B. pose proof (pos_part_ge (at_ (built_area i) m)). lra.
+  Qed.
+
+  Lemma bnd_sw_stock : add_sw i = true -> forall m, (m < NM i)%nat ->
+    a SW_wet m <= rsum (sw_W i) (NM i) + rsum (sw_B i) (NM i) /\
+    a SW_area m <= rsum (sw_W i) (NM i) + rsum (sw_B i) (NM i).
+  Proof.
+    intros Hb m Hm. pose proof (bnd_sw_wet_m Hb m Hm). pose proof (bnd_sw_area_m Hb m Hm).
+    pose proof (term_le_rsum (sw_W i) m (NM i) (sw_W_nonneg i) Hm).
+    pose proof (term_le_rsum (sw_B i) m (NM i) (sw_B_nonneg i) Hm).
+    pose proof (rsum_nonneg (sw_W i) (NM i) (sw_W_nonneg i)).
+    pose proof (rsum_nonneg (sw_B i) (NM i) (sw_B_nonneg i)). split; lra.
+  Qed.
+
+  Lemma bnd_sw_use_m : add_sw i = true -> forall m, (m < NM i)%nat -> sw_use i a m <= sw_U i m.
+  Proof.
+    intros Hb m Hm. destruct m as [|p].
+    - destruct (lpc01_seaweed_month0 i ty a F Hb Hm) as (_ & _ & H1 & H2 & H3).
+      unfold sw_use. rewrite H1, H2, H3. cbn [sw_U]. lra.
+    - pose proof (lpc01_seaweed_ledger i ty a F Hb p Hm) as H.
+      assert (Hp : (p < NM i)%nat) by lia.
+      pose proof (mul_bound _ _ (1 + at_ (growth i) (S p) / 100) (Hn SW_wet p) (bnd_sw_wet_m Hb p Hp)).
+      pose proof (mul_bound _ _ (sw_c i) (Hn SW_area p) (bnd_sw_area_m Hb p Hp)).
+      pose proof (mul_bound _ _ (- sw_c i) (Hn SW_area (S p)) (bnd_sw_area_m Hb (S p) Hm)).
+      pose proof (Hn SW_wet (S p)). cbn [sw_U]. unfold sw_c in *. lra.
+  Qed.
+
+  Lemma bnd_sw_use : add_sw i = true -> forall m, (m < NM i)%nat ->
+    a SW_h m <= rsum (sw_U i) (NM i) /\ a SW_f m <= rsum (sw_U i) (NM i) /\ a SW_b m <= rsum (sw_U i) (NM i).
+  Proof.
+    intros Hb m Hm. apply (use_parts (w_sw i)); try apply Hn; [apply A_sw|].
+    pose proof (bnd_sw_use_m Hb m Hm) as H. unfold sw_use in H.
+    pose proof (term_le_rsum (sw_U i) m (NM i) (sw_U_nonneg i) Hm). lra.
+  Qed.
+
+  (* ---------------- people's total, percent fed, objective ---------------- *)
+
+  Lemma bnd_human_sum : forall m, (m < NM i)%nat -> human_sum i a m <= B_human i.
+  Proof.
+    intros m Hm. unfold human_sum, B_human.
+    assert (bq (add_sf i) (a SF_h m) <= B_sf i) by (apply bq_le_onb; intros Hb; apply (bnd_sf_use Hb m Hm)).
+    assert (bq (add_cr i) (a CR_h m) <= B_cr i) by (apply bq_le_onb; intros Hb; apply (bnd_cr_use Hb m Hm)).
+    assert (bq (add_meat i) (a M_eaten m) <= B_meat i) by (apply bq_le_onb; intros Hb; apply (bnd_meat_eaten Hb m Hm)).
+    assert (bq (add_cs i) (a CS_h m) <= B_cs i) by (apply bq_le_onb; intros Hb; apply (bnd_cs Hb m Hm)).
+    assert (bq (add_scp i) (a SCP_h m) <= B_scp i) by (apply bq_le_onb; intros Hb; apply (bnd_scp Hb m Hm)).
+    assert (bq (add_sw i) (sw_kcals i * a SW_h m) <= sw_kcals i * B_sw_use i).
+    { unfold B_sw_use. destruct (add_sw i) eqn:Hb; cbn [bq onb]; [|lra].
+      destruct (bnd_sw_use Hb m Hm) as [H' _]. pose proof A_kcals.
+      rewrite !(Qmult_comm (sw_kcals i)). apply Qmult_le_compat_r; lra. }
+    lra.
+  Qed.
+
+  Lemma bnd_consumed : ty = ToHumans -> forall m, (m < NM i)%nat -> a Consumed m <= B_cons i.
+  Proof.
+    intros T m Hm. pose proof F as F'. rewrite T in F'.
+    pose proof (Feasible_consumed i ToHumans a F' m Hm) as H.
+    pose proof A_need as Hnd.
+    apply sat_rows_consumed_humans in H; [|intro HE; lra].
+    pose proof (bnd_human_sum m Hm) as H1.
+    pose proof (term_le_rsum (fun m => pos_part (given_kcals i m)) m (NM i) (fun k => pos_part_nonneg _) Hm) as H2.
+    cbv beta in H2. pose proof (pos_part_ge (given_kcals i m)) as H3.
+    rewrite H. unfold B_cons.
+    setoid_replace ((human_sum i a m + given_kcals i m) / need i * 100)
+      with ((human_sum i a m + given_kcals i m) * (100 / need i)) by (field; intro HE; lra).
+    apply Qmult_le_compat_r; [lra | apply need_factor_nonneg; exact Hnd].
+  Qed.
+
+  Lemma bnd_obj_humans : ty = ToHumans -> (0 < NM i)%nat -> a Obj 0%nat <= B_cons i.
+  Proof.
+    intros T H0. pose proof (bnd_consumed T 0%nat H0) as H. pose proof F as F'. rewrite T in F'.
+    pose proof (Feasible_objective i ToHumans a F') as HO.
+    pose proof (proj1 (sat_rows_objective_humans i a) HO 0%nat H0). lra.
+  Qed.
+
+  Lemma bnd_obj_animals : ty = ToAnimals -> a Obj 0%nat <= B_obj_animals i.
+  Proof.
+    intros T. pose proof F as F'. rewrite T in F'.
+    pose proof (Feasible_objective i ToAnimals a F') as HO.
+    apply (proj1 (sat_rows_objective_animals i a)) in HO. unfold B_obj_animals, pos_sum. rewrite !rsum_sumQ.
+    pose proof (Qlt_le_weak _ _ A_kcals) as Hk.
+    assert (Hf : sumQ (feed_sum i a) (NM i) <= sumQ (fun m => pos_part (at_ (max_feed i) m)) (NM i)).
+    { apply sumQ_le. intros m Hm. pose proof (pos_part_ge (at_ (max_feed i) m)). pose proof (pos_part_nonneg (at_ (max_feed i) m)).
+      destruct (has_nonhuman i) eqn:Hb.
+      - destruct (lpc01_animals_ceiling i a F' Hb m Hm). lra.
+      - rewrite (feed_sum_no_nonhuman i a m Hb). lra. }
+    assert (Hbf : sumQ (biofuel_sum i a) (NM i) <= sumQ (fun m => pos_part (at_ (max_biofuel i) m)) (NM i)).
+    { apply sumQ_le. intros m Hm. pose proof (pos_part_ge (at_ (max_biofuel i) m)). pose proof (pos_part_nonneg (at_ (max_biofuel i) m)).
+      destruct (has_nonhuman i) eqn:Hb.
+      - destruct (lpc01_animals_ceiling i a F' Hb m Hm). lra.
+      - rewrite (biofuel_sum_no_nonhuman i a m Hb). lra. }
+    assert (0 <= sumQ (feed_sum i a) (NM i)) by (apply sumQ_nonneg; intros; apply feed_sum_nonneg; [exact Hn | exact Hk]).
+    assert (0 <= sumQ (biofuel_sum i a) (NM i)) by (apply sumQ_nonneg; intros; apply biofuel_sum_nonneg; [exact Hn | exact Hk]).
+    lra.
+  Qed.
+End Bounds.
+
+(* ================================================================== *)
+(* every occurring variable of every feasible point is below `ubound` *)
+(* ================================================================== *)
+
+Lemma bound_hyps_b_sound i ty : bound_hyps_b i ty = true -> bound_hyps i ty.
+Proof.
+  unfold bound_hyps_b, bound_hyps. intros H T. rewrite T in H. apply Nat.ltb_lt in H. exact H.
+Qed.
+
+Lemma store_ok_b_sound i : store_ok_b i = true -> store_ok i.
+Proof.
+  unfold store_ok_b, store_ok. destruct (store_years i); [left; reflexivity|].
+  destruct (add_sf i); cbn; intros H; [discriminate H | right; reflexivity].
+Qed.
+
+Lemma waste_ok_b_sound w : waste_ok_b w = true -> waste_ok w.
+Proof.
+  unfold waste_ok_b, waste_ok. rewrite andb_true_iff, negb_true_iff. intros [H1 H2].
+  apply Qle_bool_iff in H1. split; [exact H1|].
+  apply Qnot_le_lt. intros H. apply Qle_bool_iff in H. rewrite H in H2. discriminate H2.
+Qed.
+
+Lemma pos_b_sound x : negb (Qle_bool x 0) = true -> 0 < x.
+Proof.
+  rewrite negb_true_iff. intros H2. apply Qnot_le_lt. intros H. apply Qle_bool_iff in H.
+  rewrite H in H2. discriminate H2.
+Qed.
+
+Lemma admissible_b_sound i : admissible_b i = true -> admissible i.
+Proof.
+  unfold admissible_b, admissible. rewrite !andb_true_iff.
+  intros (((((((H1 & H2) & H3) & H4) & H5) & H6) & H7) & H8).
+  repeat split; try (apply waste_ok_b_sound; assumption); apply pos_b_sound; assumption.
+Qed.
+
+Theorem feasible_bounded : forall i ty a,
+  admissible i -> bound_hyps i ty -> store_ok i -> Feasible i ty a ->
+  forall s m, occurs (s, m) (build i ty) = true -> a s m <= ubound i ty.
+Proof.
+  intros i ty a A BH SO F s m Ho. apply occurs_inv in Ho. rewrite ubound_eq.
+  pose proof (B_sf_nonneg i). pose proof (B_cr_nonneg i). pose proof (B_meat_nonneg i).
+  pose proof (B_scp_nonneg i). pose proof (B_cs_nonneg i). pose proof (B_sw_stock_nonneg i).
+  pose proof (B_sw_use_nonneg i).
+  assert (0 <= B_last i ty).
+  { destruct ty; cbn [B_last]; [apply B_cons_nonneg; [apply (A_kcals i A) | apply (A_need i A)]
+                               | apply B_obj_animals_nonneg]. }
+  unfold live in Ho; destruct s; cbn [fst snd] in Ho.
+  - (* SF_start *) destruct Ho as [Hb Hm]. destruct SO as [R|R]; [|congruence].
+    assert (a SF_start m <= B_sf i) by (unfold B_sf; rewrite Hb; apply (bnd_sf_start i ty a A F Hb R m Hm)). lra.
+  - (* SF_end *) destruct Ho as [Hb Hm]. destruct SO as [R|R]; [|congruence].
+    assert (a SF_end m <= B_sf i) by (unfold B_sf; rewrite Hb; apply (bnd_sf_end i ty a A F Hb R m Hm)). lra.
+  - destruct Ho as [Hb Hm].
+    assert (a SF_h m <= B_sf i) by (unfold B_sf; rewrite Hb; apply (bnd_sf_use i ty a A F Hb m Hm)). lra.
+  - destruct Ho as [Hb Hm].
+    assert (a SF_f m <= B_sf i) by (unfold B_sf; rewrite Hb; apply (bnd_sf_use i ty a A F Hb m Hm)). lra.
+  - destruct Ho as [Hb Hm].
+    assert (a SF_b m <= B_sf i) by (unfold B_sf; rewrite Hb; apply (bnd_sf_use i ty a A F Hb m Hm)). lra.
+  - destruct Ho as [Hb Hm].
+    assert (a SCP_h m <= B_scp i) by (unfold B_scp; rewrite Hb; apply (bnd_scp i ty a A F Hb m Hm)). lra.
+  - destruct Ho as [Hb Hm].
+    assert (a SCP_f m <= B_scp i) by (unfold B_scp; rewrite Hb; apply (bnd_scp i ty a A F Hb m Hm)). lra.
+  - destruct Ho as [Hb Hm].
+    assert (a SCP_b m <= B_scp i) by (unfold B_scp; rewrite Hb; apply (bnd_scp i ty a A F Hb m Hm)). lra.
+  - destruct Ho as [Hb Hm].
+    assert (a CS_h m <= B_cs i) by (unfold B_cs; rewrite Hb; apply (bnd_cs i ty a A F Hb m Hm)). lra.
+  - destruct Ho as [Hb Hm].
+    assert (a CS_f m <= B_cs i) by (unfold B_cs; rewrite Hb; apply (bnd_cs i ty a A F Hb m Hm)). lra.
+  - destruct Ho as [Hb Hm].
+    assert (a CS_b m <= B_cs i) by (unfold B_cs; rewrite Hb; apply (bnd_cs i ty a A F Hb m Hm)). lra.
+  - (* M_start *) destruct Ho as [[Hb R] Hm].
+    assert (a M_start m <= B_meat i) by (unfold B_meat; rewrite Hb, R; apply (bnd_meat_start i ty a A F Hb R m Hm)). lra.
+  - (* M_end *) destruct Ho as [[Hb R] Hm].
+    assert (a M_end m <= B_meat i) by (unfold B_meat; rewrite Hb, R; apply (bnd_meat_end i ty a A F Hb R m Hm)). lra.
+  - (* M_eaten *) destruct Ho as [Hb Hm].
+    assert (a M_eaten m <= B_meat i) by (unfold B_meat; rewrite Hb; apply (bnd_meat_eaten i ty a A F Hb m Hm)). lra.
+  - destruct Ho as [Hb Hm].
+    assert (a CR_storage m <= B_cr i) by (unfold B_cr; rewrite Hb; apply (bnd_cr_storage i ty a F Hb m Hm)). lra.
+  - destruct Ho as [Hb Hm].
+    assert (a CR_consumed m <= B_cr i) by (unfold B_cr; rewrite Hb; apply (bnd_cr_consumed i ty a F Hb m Hm)). lra.
+  - destruct Ho as [Hb Hm].
+    assert (a CR_h m <= B_cr i) by (unfold B_cr; rewrite Hb; apply (bnd_cr_use i ty a A F Hb m Hm)). lra.
+  - destruct Ho as [Hb Hm].
+    assert (a CR_f m <= B_cr i) by (unfold B_cr; rewrite Hb; apply (bnd_cr_use i ty a A F Hb m Hm)). lra.
+  - destruct Ho as [Hb Hm].
+    assert (a CR_b m <= B_cr i) by (unfold B_cr; rewrite Hb; apply (bnd_cr_use i ty a A F Hb m Hm)). lra.
+  - destruct Ho as [Hb Hm].
+    assert (a SW_wet m <= B_sw_stock i) by (unfold B_sw_stock; rewrite Hb; apply (bnd_sw_stock i ty a F Hb m Hm)). lra.
+  - destruct Ho as [Hb Hm].
+    assert (a SW_h m <= B_sw_use i) by (unfold B_sw_use; rewrite Hb; apply (bnd_sw_use i ty a A F Hb m Hm)). lra.
+  - destruct Ho as [Hb Hm].
+    assert (a SW_f m <= B_sw_use i) by (unfold B_sw_use; rewrite Hb; apply (bnd_sw_use i ty a A F Hb m Hm)). lra.
+  - destruct Ho as [Hb Hm].
+    assert (a SW_b m <= B_sw_use i) by (unfold B_sw_use; rewrite Hb; apply (bnd_sw_use i ty a A F Hb m Hm)). lra.
+  - destruct Ho as [Hb Hm].
+    assert (a SW_area m <= B_sw_stock i) by (unfold B_sw_stock; rewrite Hb; apply (bnd_sw_stock i ty a F Hb m Hm)). lra.
+  - (* Consumed *) destruct Ho as [T Hm].
+    assert (a Consumed m <= B_last i ty) by (rewrite T; apply (bnd_consumed i ty a A F T m Hm)). lra.
+  - (* Obj *) subst m.
+    assert (a Obj 0%nat <= B_last i ty).
+    { destruct ty eqn:T; cbn [B_last].
+      - apply (bnd_obj_humans i ToHumans a A F eq_refl). apply BH. reflexivity.
+      - apply (bnd_obj_animals i ToAnimals a A F eq_refl). }
+    lra.
+Qed.
+
+(* ================================================================== *)
+(* an accepted certificate is an unconditional optimality statement   *)
+(* ================================================================== *)
+
+Theorem certificate_optimal : forall i ty y claimed,
+  admissible i -> bound_hyps i ty -> store_ok i ->
+  check_cert (build i ty) y (ubound i ty) claimed = true ->
+  forall a, Feasible i ty a -> a Obj 0%nat <= claimed.
+Proof.
+  intros i ty y claimed A BH SO HC a F.
+  apply (check_cert_optimal i ty y (ubound i ty) claimed HC a F).
+  intros s m Ho. apply (feasible_bounded i ty a A BH SO F s m Ho).
+Qed.
+
+(* transported to the specification (Model/Physical.v): no physically feasible allocation
+   achieves more than the certified value *)
+Theorem certificate_optimal_physical : forall i ty y claimed,
+  admissible i -> bound_hyps i ty -> store_ok i -> 0 <= claimed ->
+  check_cert (build i ty) y (ubound i ty) claimed = true ->
+  forall x w, Physical.Physical i ty x -> Physical.achieves i ty x w -> w <= claimed.
+Proof.
+  intros i ty y claimed A BH SO H0 HC.
+  apply (proj1 (LP_C02.c02_upper_bound_transfer i ty claimed A H0)).
+  intros a F. apply (certificate_optimal i ty y claimed A BH SO HC a F).
+Qed.
+
+(* everything the harness has to evaluate, in one boolean *)
+Theorem cert_ok_sound : forall i ty y claimed,
+  cert_ok i ty y claimed = true ->
+  (forall a, Feasible i ty a -> a Obj 0%nat <= claimed) /\
+  (forall x w, Physical.Physical i ty x -> Physical.achieves i ty x w -> w <= claimed).
+Proof.
+  intros i ty y claimed H. unfold cert_ok in H. rewrite !andb_true_iff in H.
+  destruct H as ((((H1 & H2) & H3) & H4) & H5).
+  apply admissible_b_sound in H1. apply bound_hyps_b_sound in H2. apply store_ok_b_sound in H3.
+  apply Qle_bool_iff in H4. split.
+  - apply (certificate_optimal i ty y claimed H1 H2 H3 H5).
+  - apply (certificate_optimal_physical i ty y claimed H1 H2 H3 H4 H5).
+Qed.
+
+(* ================================================================== *)
+(* examples: the hypotheses are satisfiable; the excluded regime is unbounded *)
+(* ================================================================== *)
+
+(* the 3-month, all-foods instance of Proofs/LP_C02.v satisfies every hypothesis *)
+Example bound_hyps_satisfiable :
+  admissible LP_C02.ex_in /\ bound_hyps LP_C02.ex_in ToHumans /\ bound_hyps LP_C02.ex_in ToAnimals /\
+  store_ok LP_C02.ex_in /\
+  admissible_b LP_C02.ex_in && bound_hyps_b LP_C02.ex_in ToHumans && store_ok_b LP_C02.ex_in = true.
+Proof.
+  split; [apply admissible_b_sound; vm_compute; reflexivity|].
+  split; [apply bound_hyps_b_sound; reflexivity|].
+  split; [apply bound_hyps_b_sound; reflexivity|].
+  split; [apply store_ok_b_sound; reflexivity|]. vm_compute. reflexivity.
+Qed.
+
+(* first-year-only stock regime, 15 months, only stored food (nothing in stock): the variable
+   SF_end 13 occurs (in the row SF_start 14 - SF_end 13 = 0) and is unbounded on the feasible set *)
+Definition ex_unb_in : lp_in :=
+  {| NM := 15;
+     add_sw := false; add_cr := false; add_sf := true; add_meat := false; add_scp := false; add_cs := false;
+     store_years := false;
+     pop := 1000000; kcals_monthly_pp := 63000; need := 63;
+     w_sf := 0; w_cr := 0; w_meat := 0; w_scp := 0; w_cs := 0; w_sw := 0;
+     sf0 := 0; meat_total := 0;
+     sw_kcals := 1; sw_init := 0; sw_init_area := 0; sw_min_density := 0; sw_max_density := 0; sw_harvest_loss := 0;
+     relocated := false; harvest_delay := 0;
+     cap_sw_h := 0; cap_sw_f := 0; cap_sw_b := 0;
+     cap_scp_h := 0; cap_scp_f := 0; cap_scp_b := 0;
+     cap_cs_h := 0; cap_cs_f := 0; cap_cs_b := 0;
+     crops_prod := []; milk := []; greenhouse := []; fish := [];
+     scp_prod := []; cs_prod := []; built_area := []; growth := [];
+     feed_charge := []; biofuel_charge := [];
+     meat_monthly := []; meat_running := [];
+     max_feed := []; max_biofuel := [];
+     pin_cr := []; pin_sf := []; pin_meat := []; pin_scp := []; pin_cs := []; pin_sw := [] |}.
+
+Definition ex_unb_a (K : Q) : assignment :=
+  fun s m =>
+    match s with
+    | SF_end => if Nat.eqb m 13 then K else 0
+    | SF_start => if Nat.eqb m 14 then K else 0
+    | _ => 0
+    end.
+
+Example first_year_regime_unbounded : forall K, 0 <= K ->
+  admissible ex_unb_in /\ bound_hyps ex_unb_in ToHumans /\ ~ store_ok ex_unb_in /\
+  occurs (SF_end, 13%nat) (build ex_unb_in ToHumans) = true /\
+  Feasible ex_unb_in ToHumans (ex_unb_a K) /\ ex_unb_a K SF_end 13%nat == K.
+Proof.
+  intros K HK.
+  split; [apply admissible_b_sound; vm_compute; reflexivity|].
+  split; [apply bound_hyps_b_sound; reflexivity|].
+  split; [intros [H|H]; discriminate H|].
+  split; [vm_compute; reflexivity|].
+  split; [|reflexivity].
+  split.
+  - intros s m. unfold ex_unb_a. destruct s; try lra; destruct (Nat.eqb m _); lra.
+  - let r := eval vm_compute in (build ex_unb_in ToHumans) in
+    change (Forall (sat (ex_unb_a K)) r).
+    repeat (apply Forall_cons || apply Forall_nil);
+      unfold sat; cbn [sns lhs rhs eval ex_unb_a Nat.eqb]; lra.
+Qed.
+
+(* end to end on a one-month instance with only single-cell protein (10 units, no waste, need 100):
+   the optimum is 10 percent; multipliers deliberately perturbed (0.999 instead of 1 on the supply
+   row), so that the reduced cost of SCP_h is positive and the bound `ubound` = 20 is really used *)
+Definition ex_cert_in : lp_in :=
+  {| NM := 1;
+     add_sw := false; add_cr := false; add_sf := false; add_meat := false; add_scp := true; add_cs := false;
+     store_years := false;
+     pop := 1000000000; kcals_monthly_pp := 100; need := 100;
+     w_sf := 0; w_cr := 0; w_meat := 0; w_scp := 0; w_cs := 0; w_sw := 0;
+     sf0 := 0; meat_total := 0;
+     sw_kcals := 1; sw_init := 0; sw_init_area := 0; sw_min_density := 0; sw_max_density := 0; sw_harvest_loss := 0;
+     relocated := false; harvest_delay := 0;
+     cap_sw_h := 0; cap_sw_f := 0; cap_sw_b := 0;
+     cap_scp_h := 100; cap_scp_f := 100; cap_scp_b := 100;
+     cap_cs_h := 0; cap_cs_f := 0; cap_cs_b := 0;
+     crops_prod := []; milk := []; greenhouse := []; fish := [];
+     scp_prod := [10]; cs_prod := []; built_area := []; growth := [];
+     feed_charge := []; biofuel_charge := [];
+     meat_monthly := []; meat_running := [];
+     max_feed := []; max_biofuel := [];
+     pin_cr := []; pin_sf := []; pin_meat := []; pin_scp := []; pin_cs := []; pin_sw := [] |}.
+
+(* rows: supply; feed =; biofuel =; consumed =; four cap rows; Obj - Consumed <= 0 *)
+Definition ex_cert_y : list Q := [999 # 1000; 0; 0; 1; 0; 0; 0; 0; 1].
+
+Example ex_cert_accepted :
+  ubound ex_cert_in ToHumans == 20 /\
+  cert_ok ex_cert_in ToHumans ex_cert_y (1001 # 100) = true /\
+  cert_ok ex_cert_in ToHumans ex_cert_y 10 = false /\
+  (forall a, Feasible ex_cert_in ToHumans a -> a Obj 0%nat <= 1001 # 100).
+Proof.
+  split; [vm_compute; reflexivity|]. split; [vm_compute; reflexivity|]. split; [vm_compute; reflexivity|].
+  apply (cert_ok_sound ex_cert_in ToHumans ex_cert_y (1001 # 100)). vm_compute. reflexivity.
+Qed.
+
+(* cost of the bound on a full-size instance: 120 months, every food, float-like rationals
+   (53-bit numerators over 2^40); about 0.4 s by vm_compute *)
+Definition ex_ser (seed : Z) (n : nat) : list Q :=
+  map (fun k => Qmake (1125899906842597 + seed * 7919 * Z.of_nat k * 104729 + Z.of_nat k) (2 ^ 40)) (seq 0 n).
+
+Definition ex120 : lp_in :=
+  {| NM := 120;
+     add_sw := true; add_cr := true; add_sf := true; add_meat := true; add_scp := true; add_cs := true;
+     store_years := true;
+     pop := 7800000000; kcals_monthly_pp := 63000; need := 491400;
+     w_sf := 12; w_cr := 24; w_meat := 4; w_scp := 12; w_cs := 14; w_sw := 14;
+     sf0 := Qmake 4398046511104999 (2 ^ 32); meat_total := Qmake 439804651110499 (2 ^ 32);
+     sw_kcals := 2; sw_init := 1; sw_init_area := 1; sw_min_density := 400; sw_max_density := 4000; sw_harvest_loss := 20;
+     relocated := true; harvest_delay := 7;
+     cap_sw_h := 10; cap_sw_f := 10; cap_sw_b := 10;
+     cap_scp_h := 50; cap_scp_f := 50; cap_scp_b := 50;
+     cap_cs_h := 50; cap_cs_f := 50; cap_cs_b := 50;
+     crops_prod := ex_ser 1 120; milk := ex_ser 2 120; greenhouse := ex_ser 3 120; fish := ex_ser 4 120;
+     scp_prod := ex_ser 5 120; cs_prod := ex_ser 6 120; built_area := ex_ser 7 120; growth := ex_ser 8 120;
+     feed_charge := ex_ser 9 120; biofuel_charge := ex_ser 10 120;
+     meat_monthly := ex_ser 11 120; meat_running := ex_ser 12 120;
+     max_feed := ex_ser 13 120; max_biofuel := ex_ser 14 120;
+     pin_cr := ex_ser 15 120; pin_sf := ex_ser 16 120; pin_meat := ex_ser 17 120; pin_scp := ex_ser 18 120;
+     pin_cs := ex_ser 19 120; pin_sw := ex_ser 20 120 |}.
+
+Example ubound_120_months :
+  admissible_b ex120 && bound_hyps_b ex120 ToHumans && store_ok_b ex120 = true /\
+  0 < ubound ex120 ToHumans /\ 0 < ubound ex120 ToAnimals.
+Proof. split; [vm_compute; reflexivity|]. split; vm_compute; reflexivity. Qed.
+
+Print Assumptions occurs_inv.
+Print Assumptions feasible_bounded.
+Print Assumptions certificate_optimal.
+Print Assumptions certificate_optimal_physical.
+Print Assumptions cert_ok_sound.
+Print Assumptions first_year_regime_unbounded.
